@@ -100,6 +100,10 @@ def run(ctx):
                 d = rng.choice(["/keep", "/keep/deep"])
                 size = rng.choice([10, v.bpc, v.bpc + 1, 3 * v.bpc - 1])
                 pre += [["open", f"k{j}", d + "/" + n, "w"], ["write", f"k{j}", bytes(rng.randrange(1, 256) for _ in range(size)).hex()], ["hclose", f"k{j}"]]
+            # a durable file whose size is an exact multiple of the cluster size, then appended by a few bytes (its last FAT link is
+            # the only thing that reaches the device at close)
+            pre += [["open", "v", "/keep/V.BIN", "w"], ["write", "v", "56" * (2 * v.bpc)], ["hclose", "v"],
+                    ["open", "v2", "/keep/V.BIN", "a"], ["write", "v2", "57" * 10], ["hclose", "v2"]]
             pool = [n for n in gen.name_pool(rng, big=False) if not _hist.quarantined_name(n)]
             work = gen.namespace_program(rng, nops=ctx.scale(10, 24), pool=pool, depth=3)
             work = [[o[0]] + [("/work" + x if isinstance(x, str) and x.startswith("/") else x) for x in o[1:]] for o in work
